@@ -477,12 +477,14 @@ class Node:
             cer_timeout = peer.cer_timeout or cer_timeout
 
         if conn.state == PEER_CONNECTED:
-            if conn.is_sender and conn.last_read_since > cea_timeout:
+            # measured from the beginning of the connection; anything else the
+            # peer may send in the meantime does not extend the deadline
+            if conn.is_sender and conn.lifetime > cea_timeout:
                 self.logger.warning(
                     f"{conn} exceeded CEA timeout, closing connection")
                 self.close_connection_socket(
                     conn, DISCONNECT_REASON_FAILED_CONNECT_CE)
-            elif conn.is_receiver and conn.last_read_since > cer_timeout:
+            elif conn.is_receiver and conn.lifetime > cer_timeout:
                 self.logger.warning(
                     f"{conn} exceeded CER timeout, closing connection")
                 self.close_connection_socket(
